@@ -196,3 +196,80 @@ Proof.
       apply SE'. right. apply in_map. exact Ic.
 Qed.
 Print Assumptions locate_render.
+
+(* ------------------------------------------------------------------ process_statements on the rendered text *)
+Lemma slice_mid : forall (a b c : str), slice (length a) (length a + length b) (a ++ b ++ c) = b.
+Proof.
+  intros a b c. unfold slice. rewrite skipn_app, Nat.sub_diag, skipn_all. cbn [app skipn].
+  replace (length a + length b - length a)%nat with (length b) by lia.
+  rewrite firstn_app, Nat.sub_diag, firstn_all. cbn [firstn]. apply app_nil_r.
+Qed.
+
+Definition next_lead (r : list rcl) : nat := match r with [] => O | c :: _ => rc_lead c end.
+Definition span_of (c : rcl) (r : list rcl) : str := sps (S (rc_sp c)) ++ rc_txt c ++ sps (next_lead r).
+
+Fixpoint proc_cls (fl : lang) (pos : nat) (cs : list rcl) (acc : actions) : res actions :=
+  match cs with
+  | [] => Ok acc
+  | c :: r => match apply_statement fl (rc_st c) (pos + rc_lead c) (span_of c r) acc with
+              | Err e => Err e
+              | Ok acc' => proc_cls fl (pos + length (render_cl c)) r acc'
+              end
+  end.
+
+Lemma render_cls_lead : forall r, exists rest, render_cls r = sps (next_lead r) ++ rest.
+Proof.
+  destruct r as [|c r]; [exists []; reflexivity|]. cbn [render_cls next_lead]. unfold render_cl.
+  eexists. rewrite <- app_assoc. reflexivity.
+Qed.
+
+Lemma next_start : forall r pos len, (r = [] -> len = pos) ->
+  match locs pos r with (x, _, _) :: _ => x | [] => len end = (pos + next_lead r)%nat.
+Proof. intros r pos len H. destruct r as [|c r]; cbn [locs next_lead]; [rewrite H by reflexivity; lia | reflexivity]. Qed.
+
+Lemma process_cls : forall fl cs pre acc,
+  process_statements fl (pre ++ render_cls cs) (locs (length pre) cs) acc = proc_cls fl (length pre) cs acc.
+Proof.
+  intros fl. induction cs as [|c r IH]; intros pre acc; [reflexivity|].
+  cbn [locs process_statements proc_cls render_cls].
+  rewrite (next_start r (length pre + length (render_cl c)) (length (pre ++ render_cl c ++ render_cls r))).
+  2:{ intros ->. cbn [render_cls]. rewrite !app_length. cbn [length]. lia. }
+  assert (SL : slice (length pre + rc_lead c + S (length (rc_kw c))) (length pre + length (render_cl c) + next_lead r)
+                 (pre ++ render_cl c ++ render_cls r) = span_of c r).
+  { destruct (render_cls_lead r) as [rest E]. rewrite E. unfold render_cl.
+    replace (pre ++ (sps (rc_lead c) ++ SP :: rc_kw c ++ sps (S (rc_sp c)) ++ rc_txt c) ++ sps (next_lead r) ++ rest)
+      with ((pre ++ sps (rc_lead c) ++ SP :: rc_kw c) ++ span_of c r ++ rest).
+    2:{ unfold span_of. rewrite <- !app_assoc. cbn [app]. rewrite <- !app_assoc. reflexivity. }
+    replace (length pre + rc_lead c + S (length (rc_kw c)))%nat with (length (pre ++ sps (rc_lead c) ++ SP :: rc_kw c)).
+    2:{ rewrite !app_length. cbn [length]. rewrite sps_length. lia. }
+    replace (length pre + length (sps (rc_lead c) ++ SP :: rc_kw c ++ sps (S (rc_sp c)) ++ rc_txt c) + next_lead r)%nat
+      with (length (pre ++ sps (rc_lead c) ++ SP :: rc_kw c) + length (span_of c r))%nat.
+    2:{ unfold span_of. rewrite !app_length. cbn [length]. rewrite !app_length, !sps_length. lia. }
+    apply slice_mid. }
+  rewrite SL. destruct (apply_statement fl (rc_st c) (length pre + rc_lead c) (span_of c r) acc) as [acc'|e]; [|reflexivity].
+  rewrite app_assoc. rewrite <- (app_length pre (render_cl c)). apply IH.
+Qed.
+
+Lemma process_query : forall fl hst hw hk ht cs acc,
+  process_statements fl (render_q hw hk ht cs) (target hst hw hk ht cs) acc
+  = match apply_statement fl hst 0 (sps (S hk) ++ ht ++ sps (next_lead cs)) acc with
+    | Err e => Err e
+    | Ok acc' => proc_cls fl (length hw + (S hk + length ht)) cs acc'
+    end.
+Proof.
+  intros fl hst hw hk ht cs acc. unfold target, render_q. cbn [process_statements].
+  rewrite (next_start cs _ (length (hw ++ sps (S hk) ++ ht ++ render_cls cs))).
+  2:{ intros ->. cbn [render_cls]. rewrite !app_length, sps_length. cbn [length]. lia. }
+  assert (SL : slice (length hw) (length hw + (S hk + length ht) + next_lead cs) (hw ++ sps (S hk) ++ ht ++ render_cls cs)
+               = sps (S hk) ++ ht ++ sps (next_lead cs)).
+  { destruct (render_cls_lead cs) as [rest E]. rewrite E.
+    replace (hw ++ sps (S hk) ++ ht ++ sps (next_lead cs) ++ rest) with (hw ++ (sps (S hk) ++ ht ++ sps (next_lead cs)) ++ rest)
+      by (rewrite <- !app_assoc; reflexivity).
+    replace (length hw + (S hk + length ht) + next_lead cs)%nat with (length hw + length (sps (S hk) ++ ht ++ sps (next_lead cs)))%nat
+      by (rewrite !app_length, !sps_length; lia).
+    apply slice_mid. }
+  rewrite SL. destruct (apply_statement fl hst 0 (sps (S hk) ++ ht ++ sps (next_lead cs)) acc) as [acc'|e]; [|reflexivity].
+  replace (length hw + (S hk + length ht))%nat with (length (hw ++ sps (S hk) ++ ht)) by (rewrite !app_length, sps_length; lia).
+  replace (hw ++ sps (S hk) ++ ht ++ render_cls cs) with ((hw ++ sps (S hk) ++ ht) ++ render_cls cs) by (rewrite <- !app_assoc; reflexivity).
+  apply process_cls.
+Qed.
